@@ -333,7 +333,7 @@ def nonrep_cases():
             for fname, ftmpl in (("", "JSON.stringify(v)"), (" indent", "JSON.stringify(v, null, 1)")):
                 if fname and pname not in ("root", "mid property", "mid array"):
                     continue
-                src = "%svar v = %s; var s; try { s = %s } catch (e) { __out(e instanceof TypeError); s = \"threw\" } s" % (
+                src = "%svar v = %s; var res; try { res = %s } catch (e) { __out(e instanceof TypeError); res = \"threw\" } res" % (
                     pre, val, ftmpl)
                 out.append(("nonrep %s / %s%s :: %s" % (label, pname, fname, src), {"src": src}))
     # argument-count edge
@@ -365,8 +365,8 @@ def cycle_cases():
     out = []
     for label, pre, expr in CYCLES:
         for fname, call in (("", "JSON.stringify(%s)"), (" indent", "JSON.stringify(%s, null, 2)")):
-            src = ('%svar s; try { s = %s; __out("no throw") } catch (e) { __out(e instanceof TypeError); '
-                   '__out(e instanceof RangeError); s = "threw" } s' % (pre, call % expr))
+            src = ('%svar res; try { res = %s; __out("no throw") } catch (e) { __out(e instanceof TypeError); '
+                   '__out(e instanceof RangeError); res = "threw" } res' % (pre, call % expr))
             out.append(("cycle %s%s :: %s" % (label, fname, src), {"src": src, "tl": 50}))
     return out
 
@@ -453,32 +453,79 @@ def _unser(s):
 
 
 NUM_RE = re.compile(r"-?\d+(?:\.\d+)?(?:[eE][-+]?\d+)?")
+STR_RE = re.compile(r'"(?:[^"\\]|\\.)*"')
+
+# root causes, in the order in which a case with several visible defects is attributed
+C_INDENT = ("indent", "JSON.stringify ignores the indent argument")
+C_REPL_FN = ("replacer-fn", "JSON.stringify ignores a replacer function")
+C_REPL_ARR = ("replacer-array", "JSON.stringify ignores a replacer array (property allow-list)")
+C_NONFINITE = ("nonfinite", "JSON.stringify prints NaN / Infinity / -Infinity instead of null")
+C_NEGZERO = ("negzero", "JSON.stringify prints negative zero as -0.0 (specified: 0)")
+C_DOTZERO = ("dotzero", "JSON.stringify prints integral doubles with a trailing .0 (host float repr)")
+C_EXP = ("exponent", "JSON.stringify prints exponents in host style (1e-07 for 1e-7)")
+C_ASCII = ("ensure-ascii", "JSON.stringify \\u-escapes non-ASCII characters and DEL (host ensure_ascii)")
+C_BIGINT = ("hostint", "long integer texts become host integers: JSON.parse returns a non-double, stringify keeps all digits")
+C_PROTO = ("proto", "\"__proto__\" key: object literal / JSON.parse / JSON.stringify treat it differently from V8")
+C_UNDEF = ("undefined-root", "JSON.stringify returns \"null\" where undefined is specified (undefined / function at the root, or no argument)")
+C_TOJSON = ("toJSON", "JSON.stringify never calls toJSON")
+C_ACCESSOR = ("accessor", "JSON.stringify skips accessor properties (getter not invoked)")
+C_TYPED = ("typed-array", "JSON.stringify of a typed array gives {} (indexed elements not serialised)")
+C_NONENUM = ("non-enumerable", "JSON.stringify serialises non-enumerable / internal properties (regex, Error, Math, JSON, defineProperty enumerable:false)")
+C_ARGUMENTS = ("arguments", "JSON.stringify of an arguments object gives an array")
+C_CYCLE = ("cycle", "JSON.stringify on a cyclic structure raises host RecursionError instead of a catchable TypeError")
+C_ACCEPT_NAN = ("accept-nan", "JSON.parse accepts NaN / Infinity / -Infinity (host decoder extension)")
+C_PARSE_NEGZERO = ("parse-negzero", "JSON.parse loses the sign of -0")
+C_REVIVER = ("reviver", "JSON.parse ignores the reviver argument")
+C_PARSE_ARG = ("parse-arg", "JSON.parse converts a non-string argument differently from ToString")
+
+NONREP_CAUSE = {
+    "undefined": C_UNDEF, "void 0": C_UNDEF, "function": C_UNDEF, "arrow": C_UNDEF, "bound/native function": C_UNDEF,
+    "misc": C_UNDEF, "NaN": C_NONFINITE, "Infinity": C_NONFINITE, "-Infinity": C_NONFINITE, "0/0 computed": C_NONFINITE,
+    "toJSON": C_TOJSON, "toJSON->undefined": C_TOJSON, "toJSON(key)": C_TOJSON, "toJSON->object": C_TOJSON,
+    "inherited toJSON": C_TOJSON, "toJSON this": C_TOJSON, "accessor": C_ACCESSOR, "accessor+data": C_ACCESSOR,
+    "accessor throws": C_ACCESSOR, "typed array": C_TYPED, "float typed array": C_TYPED, "regex": C_NONENUM,
+    "Error object": C_NONENUM, "Math": C_NONENUM, "JSON": C_NONENUM, "non-enumerable": C_NONENUM, "arguments": C_ARGUMENTS,
+}
 
 
-def _stringify_causes(exp_t, obs_t, src):
-    """Name the defects visible in an observed JSON text, given the expected one."""
+def _nonascii_escape(tok):
+    for m in re.finditer(r"\\u([0-9a-fA-F]{4})", tok):
+        c = int(m.group(1), 16)
+        if c >= 0x7F and not 0xD800 <= c <= 0xDFFF:
+            return True
+    return False
+
+
+def _text_causes(exp_t, obs_t):
+    """Defects visible in an observed JSON text, given the expected one (attribution order)."""
     causes = []
-    if exp_t is None or obs_t is None:
+    if exp_t is None or obs_t is None or exp_t == obs_t:
         return causes
-    if "\\u00e9" in obs_t and "\\u00e9" not in exp_t:
-        causes.append("non-ASCII characters are \\u-escaped")
-    if "\\u007f" in obs_t:
-        causes.append("DEL is \\u-escaped")
-    en, on = NUM_RE.findall(re.sub(r'"(?:[^"\\]|\\.)*"', '""', exp_t)), NUM_RE.findall(re.sub(r'"(?:[^"\\]|\\.)*"', '""', obs_t))
+    if "\n" in exp_t and "\n" not in obs_t:
+        causes.append(C_INDENT)
+    eb, ob = STR_RE.sub('""', exp_t), STR_RE.sub('""', obs_t)
+    if ("NaN" in ob or "Infinity" in ob) and "NaN" not in eb and "Infinity" not in eb:
+        causes.append(C_NONFINITE)
+    en, on = NUM_RE.findall(eb), NUM_RE.findall(ob)
     if en != on:
         if any(x in ("-0.0", "-0") for x in on):
-            causes.append("negative zero printed as -0.0")
+            causes.append(C_NEGZERO)
         if any(re.fullmatch(r"-?\d+\.0", x) and x != "-0.0" for x in on):
-            causes.append("integral doubles printed with a trailing .0")
+            causes.append(C_DOTZERO)
         if any(re.search(r"e[-+]0\d", x) for x in on):
-            causes.append("exponent printed with a leading zero (1e-07)")
-    if "NaN" in obs_t or "Infinity" in obs_t:
-        causes.append("NaN/Infinity printed instead of null")
-    if "\n" in exp_t and "\n" not in obs_t and "JSON.stringify(" in src and ", null, " in src:
-        causes.append("indent argument ignored")
-    if "__proto__" in src and not causes and exp_t != obs_t:
-        causes.append("__proto__ key in an object literal")
+            causes.append(C_EXP)
+        if any(re.fullmatch(r"-?\d{16,}", x) for x in on):
+            causes.append(C_BIGINT)
+    es = set(STR_RE.findall(exp_t))
+    if any(_nonascii_escape(x) for x in STR_RE.findall(obs_t) if x not in es):
+        causes.append(C_ASCII)
     return causes
+
+
+def _attr(prefix, causes, fallback_key, fallback_what):
+    if causes:
+        return causes[0][0], causes[0][1]
+    return prefix + "|" + fallback_key, fallback_what
 
 
 def signature(sp, cid, payload, exp, obs):
@@ -486,90 +533,98 @@ def signature(sp, cid, payload, exp, obs):
     te, to = tail(exp), tail(obs)
     le, lo = exp.rpartition("|")[0], obs.rpartition("|")[0]
     name = sp.name
+    kind = mismatch_kind(exp, obs)
     if name.startswith("c19_text"):
-        if to == "Esyntax" and te.startswith("R"):
-            if le == 's"ok"':
-                what = "JSON.parse rejects a valid JSON text (and the error is not catchable)"
-            else:
-                what = "JSON.parse rejection escapes script try/catch (host-level JSSyntaxError instead of a thrown SyntaxError)"
-            return "parse|uncatchable|" + le, what
         if to.startswith("Ehost"):
             return "parse|" + to, "JSON.parse raises host exception " + to[6:]
+        if to.startswith("E"):
+            return "parse|uncatchable|" + to, "JSON.parse failure escapes script try/catch (%s)" % to[1:]
+        is_arg = cid.startswith("parse-arg ")
+        if is_arg:
+            if "function" in cid:
+                return C_REVIVER
+            return C_PARSE_ARG
+        t = _unser("s" + cid[6:])
         if lo == 's"ok"' and le != 's"ok"':
-            t = _unser("s" + cid[6:]) if cid.startswith('parse "') else None
-            if t is not None and ("NaN" in t or "Infinity" in t):
-                return "parse|accepts|NaN", "JSON.parse accepts NaN / Infinity / -Infinity (host decoder extension)"
-            if cid.startswith('parse "'):
-                return "parse|accepts|other", "JSON.parse accepts a text outside the JSON grammar"
-            return "parse|arg", "JSON.parse argument handling (non-string argument / reviver): " + mismatch_kind(exp, obs)
+            if "NaN" in t or "Infinity" in t:
+                return C_ACCEPT_NAN
+            return "parse|accepts", "JSON.parse accepts a text outside the JSON grammar"
+        if le == 's"ok"' and lo != 's"ok"':
+            return "parse|rejects", "JSON.parse rejects a valid JSON text"
         if lo == le == 's"ok"':
             if "I" in to and "I" not in te:
-                return "parse|value|hostint", "JSON.parse returns a host integer that is not a double for a long integer text"
+                return C_BIGINT
             if "d8000000000000000" in te and "d8000000000000000" not in to:
-                return "parse|value|negzero", "JSON.parse loses the sign of -0"
-            if not cid.startswith('parse "'):
-                return "parse|arg", "JSON.parse argument handling (non-string argument / reviver): " + mismatch_kind(exp, obs)
+                return C_PARSE_NEGZERO
             if "__proto__" in cid:
-                return "parse|value|proto", "JSON.parse of a \"__proto__\" key does not create an own property"
-            return "parse|value|other", "JSON.parse builds the wrong value: " + mismatch_kind(exp, obs)
-        if not cid.startswith('parse "'):
-            return "parse|arg", "JSON.parse argument handling (non-string argument / reviver): " + mismatch_kind(exp, obs)
-        return "parse|other|" + mismatch_kind(exp, obs), "JSON.parse: " + mismatch_kind(exp, obs)
+                return C_PROTO
+            return "parse|value|" + kind, "JSON.parse builds the wrong value: " + kind
+        return "parse|errclass", "JSON.parse throws something that is not a SyntaxError"
     if name.startswith("c19_canon"):
-        if to.startswith("Ehost"):
-            return "canon|" + to, "stringify(parse(t)) raises host exception " + to[6:]
+        if to.startswith("E"):
+            return "canon|" + to, "stringify(parse(t)) ends with " + to[1:]
         et, ot = _unser(te[1:]), _unser(to[1:])
+        t = _unser("s" + cid[6:])
         if et == "reject" and ot != "reject":
-            t = _unser("s" + cid[6:])
-            if t is not None and ("NaN" in t or "Infinity" in t):
-                return "canon|accepts|NaN", "stringify(parse(t)): parse accepts NaN / Infinity"
-            return "canon|accepts|other", "stringify(parse(t)): parse accepts a text outside the JSON grammar"
+            if "NaN" in t or "Infinity" in t:
+                return C_ACCEPT_NAN
+            return "parse|accepts", "JSON.parse accepts a text outside the JSON grammar"
         if ot == "reject" and et != "reject":
-            return "canon|rejects", "stringify(parse(t)): a valid text is rejected"
-        causes = _stringify_causes(et, ot, src)
+            return "parse|rejects", "JSON.parse rejects a valid JSON text"
+        causes = _text_causes(et, ot)
         if not causes and et is not None and ot is not None:
-            if re.search(r"\d{17,}", ot):
-                causes = ["long integer texts keep all digits (host integer)"]
-            elif "-0" in src:
-                causes = ["parse loses the sign of -0 / stringify prints it"]
-        if causes:
-            return "canon|" + "+".join(causes), "stringify(parse(t)) is not canonical: " + "; ".join(causes)
-        return "canon|other|" + mismatch_kind(exp, obs), "stringify(parse(t)): " + mismatch_kind(exp, obs)
+            if re.fullmatch(r"[-\d\[\]{}:,\"a]*", ot) and NUM_RE.findall(et) != NUM_RE.findall(ot) and re.search(r"\d{16,}", ot):
+                causes = [C_BIGINT]
+            elif "-0" in t:
+                causes = [C_PARSE_NEGZERO]
+            elif "__proto__" in t:
+                causes = [C_PROTO]
+        return _attr("canon", causes, kind, "stringify(parse(t)) is not the canonical text: " + kind)
     if name.startswith("c19_cycles"):
-        return "cycles|" + to + "|" + lo, "JSON.stringify on a cyclic / shared / deep structure: " + (
-            mismatch_kind(exp, obs) if to.startswith("E") else "observed log %s, expected %s" % (lo, le))
-    # stringify families
+        if to == "Ehost:RecursionError":
+            return C_CYCLE
+        if to.startswith("E"):
+            return "cycles|" + to, "JSON.stringify on a cyclic / shared structure ends with " + to[1:]
+        if le != lo:
+            if "toJSON" in src:
+                return C_TOJSON
+            return "cycles|log", "JSON.stringify on a cyclic / shared structure: throws or not, or error class, differs"
+        causes = _text_causes(_unser(te[1:]), _unser(to[1:]))
+        return _attr("cycles", causes, kind, "JSON.stringify on a shared / deep acyclic structure: " + kind)
     fam = name.split("_")[1]
     if to.startswith("Ehost"):
         return fam + "|" + to, "JSON.stringify raises host exception " + to[6:]
+    if to.startswith("E"):
+        return fam + "|" + to, "JSON.stringify ends with " + to[1:]
+    et, ot = _unser(te[1:]), _unser(to[1:])
     if fam == "nonrep":
         label = cid.split(" / ")[0][7:] if " / " in cid else "misc"
-        return "nonrep|" + label, "JSON.stringify of %s: %s" % (label, _short_diff(te, to, le, lo))
+        if et is not None and ot is not None and "\n" in et and "\n" not in ot:
+            return C_INDENT
+        if label in NONREP_CAUSE:
+            return NONREP_CAUSE[label]
+        causes = _text_causes(et, ot)
+        return _attr("nonrep", causes, label, "JSON.stringify of %s: %s" % (label, _short_diff(te, to, le, lo)))
     if fam == "replacer":
-        return "replacer|" + ("fn" if "function" in src else "array/other"), (
-            "JSON.stringify replacer argument (%s) is ignored or mishandled" % ("function" if "function" in src else "array / non-callable"))
-    et, ot = _unser(te[1:]), _unser(to[1:])
-    first = None
-    if fam == "value" and " w" in src:
-        # round trip: the log holds stringify(parse(stringify(v))), the tail the parsed value
-        el, ol = _unser(le), _unser(lo)
-        causes = _stringify_causes(el, ol, src)
-        if not causes and le == lo:
-            if "d8000000000000000" in te and "d8000000000000000" not in to:
-                causes = ["parse(stringify(-0)) is +0 in V8 too? value differs"]
-            first = "value after round trip differs: " + mismatch_kind(exp, obs)
-        key = "rt|" + ("+".join(causes) if causes else (first or mismatch_kind(exp, obs)))
-        return key, "parse(stringify(v)) round trip: " + ("; ".join(causes) if causes else (first or mismatch_kind(exp, obs)))
-    causes = _stringify_causes(et, ot, src)
-    if fam == "indent":
-        if causes:
-            return "indent|" + "+".join(causes), "JSON.stringify indentation: " + "; ".join(causes)
-        return "indent|other", "JSON.stringify indentation: wrong text"
-    if causes:
-        return "str|" + "+".join(causes), "JSON.stringify: " + "; ".join(causes)
-    if te == "Ru" and to != "Ru":
-        return "str|undefined", "JSON.stringify returns text where undefined is specified"
-    return "str|other|" + mismatch_kind(exp, obs), "JSON.stringify: " + mismatch_kind(exp, obs)
+        if "function" in src:
+            return C_REPL_FN
+        if "[" in src.rpartition("}, ")[2] or "[" in src.rpartition(", ")[2]:
+            return C_REPL_ARR
+        return "replacer|other", "JSON.stringify with a non-callable, non-array replacer: " + kind
+    if fam == "value" and src.startswith("var w"):
+        # the log holds stringify(parse(stringify(v))), the tail is the parsed value
+        causes = _text_causes(_unser(le), _unser(lo))
+        if not causes and "__proto__" in src:
+            causes = [C_PROTO]
+        if not causes and "d8000000000000000" in to and "d8000000000000000" not in te:
+            causes = [C_NEGZERO]
+        return _attr("rt", causes, kind, "parse(stringify(v)) round trip: " + kind)
+    causes = _text_causes(et, ot)
+    if not causes and "__proto__" in src:
+        causes = [C_PROTO]
+    if not causes and te == "Ru" and to != "Ru":
+        causes = [C_UNDEF]
+    return _attr(fam, causes, kind, "JSON.stringify (%s form): %s" % (fam, kind))
 
 
 def _short_diff(te, to, le, lo):
